@@ -302,3 +302,18 @@ Definition scan_codes (f : filters) (health : list nat) (ms : list msg) (ps : li
    else
      let upper := if Z.leb new c1 && Z.leb c1 lenz then c1 else (lenz + 1)%Z in
      if existsb m (cursors_from new upper) then [69%N] else []).
+
+(* ------------------------------------------------------------------ (3b) jumps by transition id *)
+
+(* ScrollToTx by id goes where the linear scan over the CURRENT records
+   finds the id, whenever the id was asked for before. codes: 70 the id is
+   present and its record is shown (no listing in force, or listed), yet the
+   cursor is not on it afterwards; 71 no record has the id, yet the cursor
+   moved *)
+Definition id_jump_codes (active : bool) (filtered : list nat) (ms : list msg) (id : nat)
+    (c0 c1 : Z) : list N :=
+  let i := tx_index_scan ms id in
+  if Z.leb 0 i then
+    (if (negb active || mem_nat (Z.to_nat i) filtered) && negb (Z.eqb c1 (i + 1)) then [70%N] else [])
+  else
+    (if Z.eqb c0 c1 then [] else [71%N]).
